@@ -216,6 +216,22 @@ func immediateWin(p *tak.Position) bool {
 	return false
 }
 
+// unreachableOpening: a position in the two opening plies (the mover places the OPPONENT's flat) with more occupied
+// squares than plies played.  No game reaches it, but TPS can spell it.  Position hashes cover board and side to move
+// only (C08), so such a position shares its hash with the same board at a later ply where the ordinary rules apply: the
+// explicit NoCollision hypothesis of C05's table theorems fails for the pair, and an engine that has seen the other one
+// may answer from its table.  The complete (model-exact) comparisons stay; the property-level claims are not made.
+func unreachableOpening(p *tak.Position) bool {
+	if p.MoveNumber() >= 2 {
+		return false
+	}
+	n := 0
+	for b := p.White | p.Black; b != 0; b &= b - 1 {
+		n++
+	}
+	return n > p.MoveNumber()
+}
+
 func emitTak(c *Ctx, tps string) {
 	out := c.Emit("sv.tak " + hexOf(tps))
 	switch {
@@ -241,6 +257,10 @@ func emitTak(c *Ctx, tps string) {
 		}
 		if p.MoveNumber() < 2 {
 			c.Count("tak.opening-ply")
+		}
+		if unreachableOpening(p) {
+			c.Count("tak.unreachable-opening-no-claim")
+			return
 		}
 	}
 	c.Emit(fmt.Sprintf("sv.takspec %s %s %s", hexOf(tps), in, field(out, "move")))
@@ -282,6 +302,10 @@ func emitAnalyze(c *Ctx, bud *budget, tps string, depth int, precise bool) {
 	c.Count("an.searched")
 	if !isLive(p) {
 		c.Count("an.searched-not-live")
+		return
+	}
+	if unreachableOpening(p) {
+		c.Count("an.unreachable-opening-no-claim")
 		return
 	}
 	c.Emit(fmt.Sprintf("sv.pvlegal %s %s", hexOf(tps), hexList(ss.pv)))
